@@ -13,8 +13,17 @@
   * `c09_connack`: the client's CONNACK is "accepted" exactly when the broker's code is 0,
     otherwise "congestion"; `c09_zero_keepalive`: "not supported" for a zero keep-alive, with
     nothing sent to the broker.
+  * **all runs** — `c09_connects_bounded`: after ANY sequence of timed events (datagrams of every kind,
+    malformed ones, broker packets, every timer on the way, EOF, shutdown) the number of MQTT CONNECT
+    packets written to the broker is at most the number of CONNECT datagrams the client has sent: every
+    connect exchange writes at most one, and nothing else ever writes one.  Potential argument
+    (`Lemmas/GwConnCount.lean`): MQTT CONNECTs written + connect exchanges that have not written theirs
+    yet grows only by the handler of a CONNECT datagram, by one (`F9` carried through every model
+    function, under the bookkeeping invariant `I9`: transaction ids unique and below `nextTx`).
 -/
 import Bisquitt.Props.C0809
+import Bisquitt.Props.C08
+import Bisquitt.Lemmas.GwConnCount
 import Bisquitt.Spec.Gateway
 
 namespace Bisquitt.Gw
@@ -87,5 +96,226 @@ theorem c09_zero_keepalive (g : Gw) (w c : Bool) (cid : Bytes) (h : g.st = .disc
     (g.handleConnect w c 0 cid).txs = g.txs := by
   unfold handleConnect
   rcases h with h | h <;> simp [h, snSend, emit]
+
+end Bisquitt.Gw
+
+namespace Bisquitt.Gw
+open Bisquitt Gw
+
+/-! ## every run: at most one MQTT CONNECT per CONNECT datagram -/
+
+theorem filter_unsent_stop (l : List Tx) :
+    ((l.map fun t => ({ t with timer := none } : Tx)).filter unsentTx).length = (l.filter unsentTx).length := by
+  induction l with
+  | nil => rfl
+  | cons x xs ih =>
+    have hx : unsentTx ({ x with timer := none } : Tx) = unsentTx x := rfl
+    simp only [List.map_cons, List.filter_cons, hx]
+    split <;> simp [ih]
+
+theorem F9.stopTimers (g : Gw) : F9 0 g g.stopTimers := by
+  refine ⟨fun hI => ⟨⟨?_, ?_, ?_⟩, ?_⟩⟩
+  · show ((g.txs.map fun t => ({ t with timer := none } : Tx)).map (·.id)).Nodup
+    rw [List.map_map]; exact hI.nodup
+  · intro x hx
+    obtain ⟨y, hy, rfl⟩ := List.mem_map.mp hx
+    exact hI.lt y hy
+  · intro x hx
+    obtain ⟨y, hy, rfl⟩ := List.mem_map.mp hx
+    exact hI.bp y hy
+  · have h : unsent g.stopTimers = unsent g := filter_unsent_stop g.txs
+    have h2 : mqConnects g.stopTimers = mqConnects g := rfl
+    unfold pot; rw [h, h2]; exact Nat.le_refl _
+
+theorem F9.finishSession (g : Gw) : F9 0 g g.finishSession := by
+  unfold Gw.finishSession
+  split
+  · split
+    · exact F9.refl g
+    · unfold Gw.shutdownDisconnect Gw.emitEnd
+      have h1 : ∀ x : Gw, F9 0 x (if x.st = .active ∨ x.st = .awake then x.emit (.sn (encode (.disconnect 0))) else x) := by
+        intro x; split
+        · exact F9.emit x _ rfl
+        · exact F9.refl x
+      have h2 : ∀ x : Gw, F9 0 x ((x.emit (.ended x.endCls)).emit .mqClose) := fun x => (F9.emit x _ rfl).trans (F9.emit _ _ rfl)
+      exact (((F9.setNow g _).trans (h1 _)).trans (h2 _)).trans (F9.stopTimers _)
+  · exact F9.refl g
+
+theorem F9.advance : ∀ (fuel : Nat) (g : Gw) (t : Nat), F9 0 g (advance fuel g t) := by
+  intro fuel
+  induction fuel with
+  | zero => intro g t; exact F9.setNow g _
+  | succ n ih =>
+    intro g t
+    unfold Gw.advance
+    split
+    · exact (F9.finishSession g).trans (F9.setNow _ _)
+    · split
+      · exact ((F9.fireDue g _).trans (F9.finishSession _)).trans (ih _ t)
+      · exact F9.setNow g _
+
+theorem F9.sample (g : Gw) : F9 0 g g.sample := by
+  unfold Gw.sample Gw.sampleBuf Gw.sampleReg Gw.sampleState
+  have e : ∀ (x y : Gw) (o : Out), isMqConnect (y.now, o) = false → y.outs = x.outs → y.txs = x.txs → y.nextTx = x.nextTx →
+      F9 0 x (y.emit o) := fun x y o ho hou ht hn => (F9.of_eq hou ht hn).trans (F9.emit y o ho)
+  split <;> split <;> split <;>
+    first
+    | exact F9.refl g
+    | exact (e _ _ _ rfl rfl rfl rfl)
+    | exact (e _ _ _ rfl rfl rfl rfl).trans (e _ _ _ rfl rfl rfl rfl)
+    | exact ((e _ _ _ rfl rfl rfl rfl).trans (e _ _ _ rfl rfl rfl rfl)).trans (e _ _ _ rfl rfl rfl rfl)
+
+/-- what a client packet may add to the potential: a CONNECT opens one exchange -/
+def connBudget : Pkt → Nat | .connect .. => 1 | _ => 0
+
+theorem F9.handleSn (g : Gw) (p : Pkt) : F9 (connBudget p) g (g.handleSn p) := by
+  unfold Gw.handleSn
+  split
+  · exact (F9.fail g _).mono (Nat.zero_le _)
+  · split
+    · exact F9.handleConnect g _ _ _ _
+    · split
+      · rename_i t st f hc
+        exact F9.connAuth g t st f _ _ (connTx_spec hc).1 (connTx_spec hc).2
+      · exact F9.refl g
+    · split
+      · rename_i t st f hc
+        exact F9.connWillTopic g t st f _ _ _ (connTx_spec hc).1 (connTx_spec hc).2
+      · exact F9.refl g
+    · split
+      · rename_i t st f hc
+        exact F9.connWillMsg g t st f _ (connTx_spec hc).1 (connTx_spec hc).2
+      · exact F9.refl g
+    · exact F9.handleRegister g _ _
+    · exact F9.handleClientPublish g _ _ _ _ _ _ _
+    · exact F9.mqttSend g _ rfl
+    · exact F9.handleSubscribe g _ _ _ _ _ _
+    · exact F9.handleUnsubscribe g _ _ _ _
+    · exact F9.handlePingreq g
+    · exact F9.handleDisconnect g _
+    · split
+      · split
+        · exact F9.bpRegack g _ _ _ _ _ _
+        · exact F9.refl g
+      · exact F9.refl g
+    · split
+      · split
+        · split
+          · exact F9.refl g
+          · split
+            · exact F9.finishTx g _
+            · exact F9.proceedMQ g _ _ _ rfl
+        · exact F9.refl g
+      · exact F9.refl g
+    · split
+      · split
+        · split
+          · exact F9.refl g
+          · exact F9.proceedMQ g _ _ _ rfl
+        · exact F9.refl g
+      · exact F9.refl g
+    · split
+      · split
+        · split
+          · exact F9.refl g
+          · exact F9.proceedMQ g _ _ _ rfl
+        · exact F9.refl g
+      · exact F9.refl g
+    · exact (F9.fail g _).mono (Nat.zero_le _)
+
+theorem F9.handleMq (g : Gw) (p : MqPkt) : F9 0 g (g.handleMq p) := by
+  unfold Gw.handleMq
+  split
+  · split
+    · exact F9.connConnack g _ _ _
+    · exact F9.refl g
+  · split
+    · split
+      · exact (F9.finishTx g _).trans (F9.snSend _ _ _)
+      · exact F9.refl g
+    · exact F9.refl g
+  · exact F9.snSend g _ _
+  · exact F9.snSend g _ _
+  · split
+    · split
+      · split
+        · split
+          · exact (F9.finishTx g _).trans (F9.snSend _ _ _)
+          · exact (F9.finishTx g _).trans (F9.snSend _ _ _)
+        · exact (F9.finishTx g _).trans (F9.fail _ _)
+      · exact F9.refl g
+    · exact F9.refl g
+  · exact F9.snSend g _ _
+  · split
+    · exact F9.refl g
+    · exact F9.snSend g _ _
+  · exact F9.handleBrokerPublish g _ _ _ _ _ _
+  · split
+    · split
+      · split
+        · exact F9.refl g
+        · exact F9.proceedSN g _ _ _
+      · exact F9.refl g
+    · exact F9.refl g
+  · exact F9.fail g _
+
+/-- 1 for a datagram that decodes as a CONNECT, 0 for every other event -/
+def connectDatagram : Event → Nat
+  | .sn bytes => match decode (bytes.take Gen.MaxPacketLen) with
+    | .ok (_, p) => connBudget p
+    | _ => 0
+  | _ => 0
+
+theorem F9.handleEvent (g : Gw) (ev : Event) : F9 (connectDatagram ev) g (g.handleEvent ev) := by
+  unfold Gw.handleEvent
+  split
+  · split
+    · rename_i hd p hdec
+      simp only [connectDatagram, hdec]
+      exact F9.handleSn g p
+    · exact (F9.fail g _).mono (Nat.zero_le _)
+  · exact F9.handleMq g _
+  · exact F9.fail g _
+  · split <;> exact F9.fail g _
+  · exact F9.fail g _
+  · exact F9.refl g
+
+theorem F9.step (g : Gw) (t : Nat) (ev : Event) : F9 (connectDatagram ev) g (g.step t ev) := by
+  unfold Gw.step Gw.stepCore Gw.deliver
+  have q1 := F9.advance 100000 g t
+  split
+  · exact ((q1.trans (F9.finishSession _)).trans (F9.sample _)).mono (Nat.zero_le _)
+  · have q2 := F9.handleEvent (Gw.advance 100000 g t) ev
+    exact ((q1.before q2).after (((F9.advance 100000 _ t).trans (F9.finishSession _)).trans (F9.sample _)))
+
+theorem i9_init (cfg : Cfg) (a b : UInt16) : I9 (Gw.init cfg a b) :=
+  ⟨by simp [Gw.init], by intro t ht; simp [Gw.init] at ht, by intro t ht; simp [Gw.init] at ht⟩
+
+/-- **C09 (ALL runs).** Whatever the client, the broker and the clock do, the gateway writes at most as
+    many MQTT CONNECT packets as the client has sent CONNECT datagrams: each connect exchange produces
+    at most one, and no other packet, timer or retransmission ever produces one. -/
+theorem c09_connects_bounded (cfg : Cfg) (a b : UInt16) (evs : List (Nat × Event)) :
+    (mqConnects ((Gw.init cfg a b).run evs)).length ≤ (evs.map fun e => connectDatagram e.2).sum := by
+  have gen : ∀ (evs : List (Nat × Event)) (g : Gw), I9 g →
+      I9 (evs.foldl (fun g (te : Nat × Event) => g.step te.1 te.2) g) ∧
+      pot (evs.foldl (fun g (te : Nat × Event) => g.step te.1 te.2) g) ≤ pot g + (evs.map fun e => connectDatagram e.2).sum := by
+    intro evs
+    induction evs with
+    | nil => intro g hI; exact ⟨hI, by simp⟩
+    | cons e rest ih =>
+      intro g hI
+      simp only [List.foldl_cons, List.map_cons, List.sum_cons]
+      have st := (F9.step g e.1 e.2).keep hI
+      have := ih _ st.1
+      exact ⟨this.1, by have := this.2; have := st.2; omega⟩
+  have h : pot ((Gw.init cfg a b).run evs) ≤ pot (Gw.init cfg a b) + (evs.map fun e => connectDatagram e.2).sum :=
+    (gen evs _ (i9_init cfg a b)).2
+  have h0 : pot (Gw.init cfg a b) = 0 := by simp [pot, unsent, mqConnects, Gw.init]
+  have hle : (mqConnects ((Gw.init cfg a b).run evs)).length ≤ pot ((Gw.init cfg a b).run evs) := Nat.le_add_right _ _
+  omega
+
+/-- non-vacuity: a CONNECT datagram counts, another datagram does not -/
+example : connectDatagram (.sn (encode (.connect false true 1 60 [0x63]))) = 1 ∧
+    connectDatagram (.sn (encode (.pingreq []))) = 0 := by decide
 
 end Bisquitt.Gw
